@@ -49,6 +49,8 @@ def run(ctx):
                            "row write (every row of the mapping is written: no byte left NUL)")
         stats_every_record(ctx, "C14.O")
     mmap_open_rule(ctx)
+    # row offsets are row_len * n: the reader numbers records 0, 1, 2 .. in both formats
+    c05.ordinal_rule(dep(ctx, "C14", "C05"), "C05.N")
     # file size == header + records x row length needs the mapped file truncated and re-sized on every run
     from . import c17, c15
     c17.open_rules(dep(ctx, "C14", "C17"))
